@@ -133,10 +133,20 @@ func wireAddr(r *rand.Rand) map[wallet.BackendID]wire.Address {
 	return map[wallet.BackendID]wire.Address{0: simwire.NewRandomAddress(r)}
 }
 
-func newHonest(r *rand.Rand, bus *wire.LocalBus) *honest {
-	h := &honest{Bus: bus, Addr: wireAddr(r)}
-	h.W = simwallet.NewWallet()
-	h.Acc = h.W.NewRandomAccount(rand.New(rand.NewSource(r.Int63()))).(*simwallet.Account)
+func newHonest(r *rand.Rand, bus *wire.LocalBus) *honest { return newHonestWith(r, bus, nil) }
+
+// newHonestWith creates an honest client; with old != nil it has the same wire address and the same
+// participant key (a restarted client).
+func newHonestWith(r *rand.Rand, bus *wire.LocalBus, old *honest) *honest {
+	h := &honest{Bus: bus}
+	if old != nil {
+		h.Addr, h.Acc = old.Addr, old.Acc
+		h.W = simwallet.NewRestoredWallet(h.Acc)
+	} else {
+		h.Addr = wireAddr(r)
+		h.W = simwallet.NewWallet()
+		h.Acc = h.W.NewRandomAccount(rand.New(rand.NewSource(r.Int63()))).(*simwallet.Account)
+	}
 	l := ledger{}
 	w, err := local.NewWatcher(l)
 	if err != nil {
@@ -184,8 +194,10 @@ func (h *honest) wasAsked() int {
 // whatever a handler sent is there when the handler has returned).
 type outbox struct {
 	psync.Closer
-	mu   sync.Mutex
-	envs []*wire.Envelope
+	mu    sync.Mutex
+	envs  []*wire.Envelope
+	probe bool
+	ack   func(*wire.Envelope)
 }
 
 func newOutbox(bus *wire.LocalBus, addr map[wallet.BackendID]wire.Address) *outbox {
@@ -199,6 +211,22 @@ func newOutbox(bus *wire.LocalBus, addr map[wallet.BackendID]wire.Address) *outb
 func (o *outbox) Put(e *wire.Envelope) {
 	o.mu.Lock()
 	o.envs = append(o.envs, e)
+	ack := o.ack
+	o.mu.Unlock()
+	if ack != nil {
+		ack(e)
+	}
+}
+
+func (o *outbox) probing() bool {
+	o.mu.Lock()
+	defer o.mu.Unlock()
+	return o.probe
+}
+
+func (o *outbox) setProbing(b bool) {
+	o.mu.Lock()
+	o.probe = b
 	o.mu.Unlock()
 }
 
